@@ -11,6 +11,10 @@ random generator reaches only rarely:
                     start() called by a shielded (un-cancelled) host or by a foreign task on a
                     group that was cancelled some cycles earlier (delivery wound down): the
                     child must be cancelled at its first checkpoint like any member  -> C07, C03
+ failed_body_late_spawn
+                    the BODY of a group fails while the group has no unfinished member; a task
+                    outside the group spawns into it around its exit checkpoint: the late
+                    member must be cancelled like any remaining task                 -> C02
  failure_then_shield
                     a member fails while the group is only effectively cancelled through an
                     enclosing scope, then a shield cuts that off (F12)               -> C02
@@ -172,6 +176,28 @@ def start_into_cancelled():  # noqa: ANN201
                                         ["cp", 1]]]]  # fmt: skip
 
                                 yield _p(cfg, root, [], "fam:start_into_cancelled")
+
+
+def failed_body_late_spawn():  # noqa: ANN201
+    for cfg in CFGS:
+        for k in range(0, 6):  # outside spawner's delay
+            for j in range(0, 4):  # host delay before the inner group
+                for m in range(0, 3):  # inner body length before it raises
+                    for members in (0, 1):  # a member that has already finished, or none
+                        for how in ("start_soon", "create_task"):
+                            for child_body in ([["cp", 4]], [["sleep", 1]], [["forever"]]):
+                                late = {"tid": 9, "how": how, "body": child_body}
+                                spawner = {"tid": 1, "how": "start_soon",
+                                           "body": [["cp", k], ["spawn", 2, late], ["cp", 3]]}  # fmt: skip
+                                inner_members = [{"tid": 3, "how": "start_soon", "body": [["return"]]}
+                                                 ] if members else []  # fmt: skip
+                                body = ([["cp", m]] if m else []) + [["raise", 7]]
+                                root = [["scope", "s1", True, None, [
+                                    ["group", 1, [spawner], [
+                                        ["cp", j],
+                                        ["catch_then", [["group", 2, inner_members, body]], [["cp", 1]]],
+                                        ["cp", 4]]]]]]  # fmt: skip
+                                yield _p(cfg, root, [], "fam:failed_body_late_spawn")
 
 
 def failure_then_shield():  # noqa: ANN201
